@@ -19,6 +19,12 @@ C = {
  "C20": ("S", "model_checking", "each lifecycle is run twice in the same simulated process, releasing the executor and letting the system settle after each; the parent's fd table, threads, children (zombies) and linked semaphores must not grow, and be empty after clean lifecycles; all schedules within the bound", S_NOTE + "; real /proc accounting is not covered by this check", S_TECH),
  "C11": ("Q", "model_checking", "explicit-state BFS over request histories of the real tracker loop against a reference model of the counting rule; end-of-file after every history", "cleanup functions, open(), signal, sys, warnings of the tracker module substituted by recorders; depth bound stated in the evidence", "explicit-state BFS over histories of the real main() loop with a reference model (every transition executed on the implementation)"),
  "C14": ("C14", "model_checking", "complete stateful exploration (visited-set DFS) of all interleavings and all timer-firing instants of small harnesses over the real synchronize.py, threads and pickled per-process copies", "SimSemLock == _multiprocessing.SemLock as bound by vf.selftest; kernel fairness not assumed", "complete explicit-state exploration of the implementation with state hashing (frames + kernel objects)"),
+ "C09": ("S", "model_checking", "BFS over histories of get_reusable_executor calls, crashes, shutdowns (waited or not), idle periods and submissions (state = documented decision state + what the implementation can tell apart), each history executed on the real code and compared step by step with a reference model; racing callers from 2-3 threads explored within the deviation bound", S_NOTE, "explicit-state BFS over operation histories executed on the implementation + deviation-bounded schedule exploration"),
+ "C12": ("R", "fault_enumeration", "real process trees: depth x start method x repeated tracker deaths, signals, end-of-life ordering with the root killed while a child lives; ensure_running decision table over a fake os; tracker-loop survival over all 2-request histories", "one OS schedule per real run; signals are delivered to an idle tracker", "enumeration of fault sequences and configurations on real processes + exhaustive small-history enumeration of the tracker loop"),
+ "C13": ("R", "fault_enumeration", "real trees: 5 histories x 3-4 endings, /dev/shm observed until the tracker has cleaned up; plus every execution within bound 1 of 8 lifecycle programs in engine S with the tracker message log checked against the simulated semaphore namespace", "the harness ends the remaining workers itself after the root ended; parent kill points other than end-of-history are not enumerated", "enumeration of histories x endings on real processes + deviation-bounded exploration in the simulator"),
+ "C15": ("Q", "exploration", "all histories up to depth 3-4 over pickler selections and dumps() with 3 reducer maps, registries snapshotted after every operation; all built-in-reducer object kinds under both back-ends; executor reducer wiring; pickler recorded in call items", "worker-side use of the recorded pickler is not exercised on real processes", "exhaustive enumeration of operation histories / finite products on the real functions"),
+ "C18": ("R", "fault_enumeration", "real children: every subset of extra parent descriptors x inheritable flag, env overlays (also observed at interpreter start-up), exit codes and signals, __main__ re-import per start method; engine S: no task runs in a worker that has not run the initializer, over all executions within the bound of programs with respawns, resizes and shutdown forms", "one OS schedule per real run; the schedule quantifier of the initializer clause is carried by engine S", "enumeration of configurations on real processes + deviation-bounded exploration in the simulator"),
+ "C19": ("Q", "exploration", "full product MAX_DEPTH x depth x start method on the real _check_max_depth and constructor; depth shipped to / seen by every worker (also inside its initializer) in all executions within the bound of programs with respawns and resizes at parent depths 0..3", "simulated workers do not nest executors", "exhaustive enumeration of a finite configuration product + deviation-bounded exploration in the simulator"),
  "C16": ("Q", "exploration", "full product of object kinds x keep_wrapper x round trips x wrapper nesting, behaviour compared with the wrapped object", "objects live in an unimportable module namespace like a script's __main__", "exhaustive enumeration of a finite configuration product on the real functions"),
  "C17": ("Q", "exploration", "complete product (48 000 configurations) of OS count, affinity source, cgroup layout/ratio, override, physical-core probe outcome, only_physical_cores against an independent reference formula", "linux path; environment substituted at the level of the values loky reads", "exhaustive enumeration of a finite configuration product on the real function"),
 }
@@ -39,10 +45,11 @@ m = {"version": 1,
      "setup_cmd": "/venv/bin/python -m vf.selftest",
      "hooks": {"guard": "LOKY_VERIF", "enable": "export LOKY_VERIF=1 (hooks are inert unless a plan file is named by LOKY_VERIF_PLAN)",
                "baseline_off_cmd": "cd /repo && env -u LOKY_VERIF -u LOKY_VERIF_PLAN /venv/bin/python -m pytest -ra -q -p no:cacheprovider --timeout=900 --continue-on-collection-errors",
-               "source_commits": [], "add_only": True},
+               "source_commits": ["d8c53a0"], "add_only": True},
      "engines": [
         {"name": "S", "path": "vf/sim", "serves_properties": [p for p, v in C.items() if v[0] == "S"], "kind_free_text": "controlled-scheduler exploration of the real loky sources over a modelled kernel (deviation-bounded stateless DFS, scheduling policies fifo/starve/eager)"},
         {"name": "Q", "path": "vf/q + vf/checks", "serves_properties": [p for p, v in C.items() if v[0] == "Q"], "kind_free_text": "sequential explicit-state / product enumeration on the real functions with substituted module globals"},
+        {"name": "R", "path": "vf/real", "serves_properties": [p for p, v in C.items() if v[0] == "R"] + ["C02"], "kind_free_text": "real processes in their own session with LOKY_VERIF fault plans (kill/exit/pause at named points), hard timeouts as hang oracle, clean-up by process group"},
         {"name": "C14", "path": "vf/c14engine.py", "serves_properties": ["C14"], "kind_free_text": "complete stateful exploration of synchronize.py harnesses"}],
      "checks": checks, "not_applicable": na,
      "notes": "python -m vf.run <id> --tier quick|thorough; exit 0 held, 1 VIOLATION, 2 internal error. known_findings.json lists genuine defects (open = known finding, fixed = repaired by a fix: commit)."}
